@@ -266,6 +266,9 @@ def rule_sf6(ctx: Ctx) -> List[Ob]:
                         role, ok, why = "callable() test", True, "mode test"
                     elif isinstance(c, ast.Compare) and c.left is n and all(isinstance(o, (ast.In, ast.NotIn)) for o in c.ops):
                         role, ok, why = "membership test", True, "mode test"
+                    elif isinstance(c, ast.Dict) and any(v is n and isinstance(k, ast.Constant) and k.value == "method"
+                                                         for k, v in zip(c.keys, c.values)):
+                        role, ok, why = "differencing method", p == "grad", "stored as options['method'] (a mode string under `grad in FD_METHODS`)"
                     elif isinstance(c, ast.Assign) and c.value is n:
                         t = c.targets[0]
                         if isinstance(t, ast.Subscript) and isinstance(t.slice, ast.Constant) and t.slice.value == "method":
